@@ -1082,7 +1082,7 @@ func ruleGuardedFields(c *Ctx) {
 		states := memo[mu]
 		nHeld := 0
 		for _, fa := range p.faddrs[fld] {
-			if _, isAlloc := fa.X.(*ssa.Alloc); isAlloc {
+			if freshBase(fa.X) {
 				continue // construction
 			}
 			// the address only handed on (`s.shutdownServer(&s.httpSrv, …)`): the access is where it is dereferenced
@@ -1120,6 +1120,16 @@ func ruleGuardedFields(c *Ctx) {
 			owners := []string{fnName(TopLevel(fn))}
 			if !p.onReferenceTree(TopLevel(fn)) {
 				owners = append(owners, p.ownerChain(fn)...) // a helper extracted from the excepted function
+			}
+			// an excepted function that was renamed is found by what it is (p.Fn resolves renames and roles)
+			for ex := range ge.Except {
+				if f := p.Fn(ex); f != nil {
+					for _, o := range append([]string{}, owners...) {
+						if p.ByNm[o] == f {
+							owners = append(owners, ex)
+						}
+					}
+				}
 			}
 			for _, o := range owners {
 				if why, ok := ge.Except[o]; ok {
@@ -1476,4 +1486,20 @@ func callRoleArg(call ssa.CallInstruction, role string) (ssa.Value, bool) {
 		return nil, true // left at its zero value
 	}
 	return nil, false
+}
+
+// freshBase: the address is (a member of a member of …) an object allocated in this very function: the
+// object is under construction and nobody else can see it yet.
+func freshBase(v ssa.Value) bool {
+	for d := 0; d < 4; d++ {
+		switch x := v.(type) {
+		case *ssa.Alloc:
+			return true
+		case *ssa.FieldAddr:
+			v = x.X
+		default:
+			return false
+		}
+	}
+	return false
 }
